@@ -5,6 +5,7 @@ import (
 	"bytes"
 	"crypto/elliptic"
 	"fmt"
+	"io"
 	"math/big"
 	"strings"
 	"testing"
@@ -294,4 +295,89 @@ func seq(n int) []int {
 		out[i] = i
 	}
 	return out
+}
+
+// TestLookAlikeOrigins: ONE issuer knows a name, all its look-alikes (gen.LookAlikes: case, dots, ports, scheme, labels,
+// white space, ...) and the weak-checksum twins, each registered with its OWN index key (in a drawn order); one honest
+// request per name. The issuer's second result must be the request key blinded by the index key registered for exactly
+// that name, and the attester's ID the reference value for it - so two names never share a key, and IDs are distinct.
+func TestLookAlikeOrigins(t *testing.T) {
+	s := rt.S("look-alike-origins").SetRule("per case a base name (fixed host name, or drawn), its ~35 look-alikes and 7 checksum-twin pairs, each registered with its own drawn index key in a drawn order; per name one complete run (CreateTokenRequest, VerifyRequest, Evaluate, FinalizeIndex): blinded request key == request key blinded by THAT name's index key, ID == reference HKDF value; all IDs distinct. non-trivial = every name; distinct by (name, index key)")
+	rt.Check(t, 3, 480, func(t *rapid.T) {
+		defer rt.Entropy(gen.Seed().Draw(t, "entropy"))()
+		iss := type3.NewRateLimitedIssuer(gen.RSAPool()[gen.RSAKey().Draw(t, "rsakey")])
+		base := "shop.example"
+		if rapid.Bool().Draw(t, "drawnBase") {
+			if o := gen.OriginName().Draw(t, "base"); len(o) > 0 && o[len(o)-1] != 0 {
+				base = o
+			}
+		}
+		names := append([]string{base}, gen.LookAlikes(base)...)
+		for _, tw := range gen.ChecksumTwins() {
+			names = append(names, tw.A, tw.B)
+		}
+		seen := map[string]bool{}
+		var uniq []string
+		for _, n := range names {
+			if !seen[n] {
+				seen[n] = true
+				uniq = append(uniq, n)
+			}
+		}
+		idx := map[string]*big.Int{}
+		stream := rt.NewDRBG(gen.Seed().Draw(t, "indexKeys"))
+		nOrd := elliptic.P384().Params().N
+		for _, i := range rapid.Permutation(seq(len(uniq))).Draw(t, "registrationOrder") {
+			b := make([]byte, 56)
+			if _, err := io.ReadFull(stream, b); err != nil {
+				t.Fatalf("harness: %v", err)
+			}
+			d := new(big.Int).SetBytes(b)
+			d.Mod(d, new(big.Int).Sub(nOrd, big.NewInt(1))).Add(d, big.NewInt(1))
+			k, err := patecdsa.CreateKey(elliptic.P384(), d.Bytes())
+			if err != nil {
+				t.Fatalf("harness: %v", err)
+			}
+			_ = iss.AddOriginWithIndexKey(uniq[i], k)
+			idx[uniq[i]] = d
+		}
+		secret := gen.P384KeyBytes().Draw(t, "client")
+		client := type3.NewRateLimitedClientFromSecret(secret)
+		att := type3.NewRateLimitedAttester(&memCache{m: map[string]*type3.ClientState{}})
+		ids := map[string]string{}
+		for ni, name := range uniq {
+			blind := gen.P384KeyBytes().Draw(t, "blind")
+			st, err := client.CreateTokenRequest(gen.Challenge().Draw(t, "challenge"), gen.Bytes32().Draw(t, "nonce"), blind, iss.TokenKeyID(), iss.TokenKey(), name, iss.NameKey())
+			if err != nil {
+				t.Fatalf("harness: %v", err)
+			}
+			anon := []byte(fmt.Sprintf("anon-%d", ni))
+			if err := att.VerifyRequest(*st.Request(), blind, st.ClientKey(), anon); err != nil {
+				rt.Fail(t, "C08/verify", "honest request rejected by the attester: %v", err)
+				return
+			}
+			_, blindedReqKey, err := iss.Evaluate(st.Request().Marshal())
+			if err != nil {
+				rt.Fail(t, "C08/evaluate", "issuer refused an honest request for the registered origin %q: %v", name, err)
+				return
+			}
+			s.Eval()
+			s.Nontrivial([]byte(name), idx[name].Bytes())
+			if want := ref.BlindCompressed(st.Request().RequestKey, idx[name], ref.IssuerBlindCtx); !bytes.Equal(blindedReqKey, want) {
+				rt.Fail(t, "C08/blinded-request-key", "origin %q (one of %d look-alike names, each with its own index key): Evaluate's second result is not the request key blinded by the index key registered for THIS name", name, len(uniq))
+				return
+			}
+			id, err := att.FinalizeIndex(st.ClientKey(), blind, blindedReqKey, anon)
+			if want := ref.AnonymousIssuerOriginID(st.ClientKey(), idx[name]); err != nil || !bytes.Equal(id, want) {
+				rt.Fail(t, "C08/value", "origin %q: anonymous issuer origin ID %x, reference %x (%v)", name, id, want, err)
+				return
+			}
+			if other, dup := ids[string(id)]; dup {
+				rt.Fail(t, "C08/not-distinct", "origins %q and %q (distinct index keys) give the same ID", other, name)
+				return
+			}
+			ids[string(id)] = name
+		}
+		s.Sample(func() any { return map[string]any{"base": base, "names": len(uniq)} })
+	})
 }
